@@ -16,7 +16,12 @@ Abstraction choices (the trusted part; all of them are listed in the evidence):
     arguments, view-returning ones, mutating ones (sort, fill, append, update, setdefault, out=...),
     program functions (resolved by name; methods by name over all program classes), user callbacks
     (calls of parameters / computed callables / SciPy higher-order solvers) and anything else = raise
-    (fail closed) unless it is in the reviewed list ASSUMED_PURE (alias-all);
+    (fail closed: the function becomes a stub that the checker rejects);
+  * a closure (nested def / lambda) may be run by anybody who gets hold of it: the creating function contains
+    an optional call of it, so it is accepted only if the closure is;
+  * local lists / dicts built from displays / comprehensions keep their spine (the container object) and
+    their elements apart (`name` and `name[*]`), so appending a protected element does not make the
+    container itself protected;
   * `self.X` for attributes assigned in the same function are separate variables (initialised from the
     receiver); passing `self` on passes the receiver and all those variables; after a call that may set
     attributes of the receiver they are re-aliased to the receiver.
@@ -1100,9 +1105,6 @@ class FunTranslator:
             return True
         if self.p.methods_named(attr, ("method", "static", "classmethod")):
             return True  # bound method object: closure over the receiver
-        for unit in self.p.units:
-            if unit.cls is None or not unit.params:
-                continue
         # attributes assigned as self.<attr> somewhere
         return attr in self.p_plain_attrs()
 
@@ -1518,8 +1520,6 @@ class FunTranslator:
         elif name in M_VIEW:
             lib = [("alias", t, [recv] + allv)]
         elif name in M_FRESH:
-            if name in ("astype", "copy") and False:
-                pass
             lib = [("alias", t, [])]
         elif name in GRID_EXT_METHODS and not cands:
             lib = [("alias", t, [])]
